@@ -5,6 +5,7 @@ package wallet
 import (
 	"time"
 
+	"github.com/btcsuite/btcd/btcec/v2"
 	"github.com/btcsuite/btcd/btcutil"
 	"github.com/btcsuite/btcd/btcutil/hdkeychain"
 	"github.com/btcsuite/btcd/btcutil/psbt"
@@ -41,6 +42,18 @@ func (ww *zzWalletWorld) issue(op int) (btcutil.Address, bool, error) {
 		// watching-only wallet, so nothing is signed)
 		out := wire.NewTxOut(100000, []byte{0x00, 0x14, 7, 7, 7, 7, 7, 7, 7, 7, 7, 7, 7, 7, 7, 7, 7, 7, 7, 7, 7, 7})
 		atx, err := ww.w.txToOutputs([]*wire.TxOut{out}, &scope, &scope, 0, 1, 2000, CoinSelectionLargest, false, nil, nil)
+		if err != nil {
+			return nil, true, err
+		}
+		if atx.ChangeIndex < 0 {
+			return nil, true, nil
+		}
+		return ww.addrOf(atx.Tx.TxOut[atx.ChangeIndex].PkScript), true, nil
+	case 6:
+		// a transaction spending the coin of an IMPORTED key: its change
+		// address comes from account 0 of the scope
+		out := wire.NewTxOut(100000, []byte{0x00, 0x14, 6, 6, 6, 6, 6, 6, 6, 6, 6, 6, 6, 6, 6, 6, 6, 6, 6, 6, 6, 6})
+		atx, err := ww.w.txToOutputs([]*wire.TxOut{out}, &scope, &scope, waddrmgr.ImportedAddrAccount, 1, 2000, CoinSelectionLargest, false, nil, nil)
 		if err != nil {
 			return nil, true, err
 		}
@@ -110,19 +123,53 @@ func (ww *zzWalletWorld) fund9() {
 		zzW(walletdb.Update(ww.db, func(tx walletdb.ReadWriteTx) error { return ww.w.addRelevantTx(tx, rec, &m) }))
 		ww.coins9 = append(ww.coins9, wire.OutPoint{Hash: f.TxHash(), Index: 0})
 	}
+	if ww.withImported {
+		// an imported public key holding a confirmed coin
+		priv, _ := btcec.PrivKeyFromBytes([]byte{0x51, 0x22, 0x33, 0x44, 0x55, 0x66, 0x77, 0x88, 0x99, 0xaa, 0xbb, 0xcc, 0xdd, 0xee, 0xff, 0x01,
+			0x11, 0x22, 0x33, 0x44, 0x55, 0x66, 0x77, 0x88, 0x99, 0xaa, 0xbb, 0xcc, 0xdd, 0xee, 0xff, 0x09})
+		var ia btcutil.Address
+		zzW(walletdb.Update(ww.db, func(tx walletdb.ReadWriteTx) error {
+			sm, err := ww.w.Manager.FetchScopedKeyManager(waddrmgr.KeyScopeBIP0084)
+			if err != nil {
+				return err
+			}
+			ma, err := sm.ImportPublicKey(tx.ReadWriteBucket(waddrmgrNamespaceKey), priv.PubKey(), &waddrmgr.BlockStamp{})
+			if err != nil {
+				return err
+			}
+			ia = ma.Address()
+			return nil
+		}))
+		f := zzPayTo(ia, 500000, 30)
+		rec, err := wtxmgr.NewTxRecordFromMsgTx(f, time.Unix(1600000000, 0))
+		zzW(err)
+		m := ww.chain.meta(ww.chain.blocks[1])
+		zzW(walletdb.Update(ww.db, func(tx walletdb.ReadWriteTx) error { return ww.w.addRelevantTx(tx, rec, &m) }))
+	}
 	zzW(walletdb.Update(ww.db, func(tx walletdb.ReadWriteTx) error {
 		return ww.w.Manager.ConvertToWatchingOnly(tx.ReadWriteBucket(waddrmgrNamespaceKey))
 	}))
 }
 
-func zzC09(bound int, nOps int) {
+func zzC09(bound int, nOps int) { zzC09Pairs(bound, nOps, nil) }
+
+// zzC09Pairs: the pair of concurrent calls is chosen among all nOps x nOps
+// pairs, or among the listed pairs.
+func zzC09Pairs(bound int, nOps int, pairs [][2]int) {
 	ww := zzNewWalletWorld(10001, 2)
 	verifrt.PreemptionBound(bound)
-	opA := verifrt.Choice(nOps, "op-a")
-	opB := verifrt.Choice(nOps, "op-b")
-	names := []string{"NewAddress", "NewChangeAddress", "CurrentAddress", "txToOutputs", "FundPsbt", "ImportAccountDryRun"}
+	var opA, opB int
+	if pairs != nil {
+		p := pairs[verifrt.Choice(len(pairs), "pair")]
+		opA, opB = p[0], p[1]
+		ww.withImported = true
+	} else {
+		opA = verifrt.Choice(nOps, "op-a")
+		opB = verifrt.Choice(nOps, "op-b")
+	}
+	names := []string{"NewAddress", "NewChangeAddress", "CurrentAddress", "txToOutputs", "FundPsbt", "ImportAccountDryRun", "txToOutputs(imported account)"}
 	baseExt := uint32(0)
-	if opA == 3 || opB == 3 || opA == 4 || opB == 4 {
+	if opA == 3 || opB == 3 || opA == 4 || opB == 4 || opA == 6 || opB == 6 {
 		ww.fund9()
 		baseExt = 2 // the two funding addresses
 		verifrt.Reach("spending-caller")
@@ -170,7 +217,7 @@ func zzC09(bound int, nOps int) {
 			switch op {
 			case 0:
 				wantExt++
-			case 1, 3, 4:
+			case 1, 3, 4, 6:
 				wantInt++
 			}
 		}
@@ -210,4 +257,13 @@ func ZzC09B2All()  { zzC09(2, 3) }
 func ZzC09B1Five() { zzC09(1, 5) }
 func ZzC09B2Five() { zzC09(2, 5) }
 func ZzC09B1Six()  { zzC09(1, 6) }
+
+// a spend from the imported-keys account (change from account 0) against the
+// callers that issue internal addresses of account 0, both orders
+func ZzC09B1Imported() {
+	zzC09Pairs(1, 0, [][2]int{{6, 1}, {1, 6}, {6, 3}, {6, 4}})
+}
+func ZzC09B2Imported() {
+	zzC09Pairs(2, 0, [][2]int{{6, 1}, {1, 6}, {6, 3}, {3, 6}, {6, 4}, {6, 6}})
+}
 func ZzC09B2Six()  { zzC09(2, 6) }
